@@ -134,6 +134,9 @@ class Tle:
                 self.name = self.name[2:]
 
         self._check_validity(text)
+        # The validity check is made on stripped lines: the fixed-column parsing
+        # below has to see the same characters
+        text = [line.strip() for line in text]
         self.text = "\n".join(text)
 
         first, second = text[0], text[1]
